@@ -274,6 +274,7 @@ pub fn dispatch(a: &Args) -> Option<(Acc, RunMeta)> {
             acc.merge(par_run(a, "c13-async", a.n(1500, 10000), c15::hostile_async_case));
             acc.merge(par_run(a, "c13-walk-mutation", a.n(800, 8000), c15::walk_mutation_case));
             acc.merge(par_run(a, "c13-async-handles", a.n(1500, 20000), c15::async_handle_case_extreme));
+            acc.merge(bookkeeping::run(a));
             Some((acc, meta(a, "catch_unwind + panic hook around every library call of: (1) unrestricted histories (all operations on all paths incl. root targets and root removal, wrong types, write scripts with seeks, read scripts with offsets i64::MIN..i64::MAX / u64::MAX) on all configurations; (2) handle scripts with extreme offsets on Mem/Phys/Alt/Ovl handles; (3) handles used after their file / parent directory was removed, replaced or moved; (4) PhysicalFS over directories prepared with std::fs (non-UTF-8 names, dangling symlinks, symlink loops, self links); (5) every operation on every path of the EmbeddedFS fixtures; (6) the join sweep; (7) the async port (same histories through AsyncVfsPath on a tokio current-thread executor; AsyncPhysicalFS over the prepared directories of (4)); (8) sync and async walk_dir polled to the end while already-listed entries are removed mid-walk; distinct = distinct observable states / scripts / scenarios", &["copy_dir/move_dir into the source's own subtree is never generated (documented non-termination)", "OverlayFS::new(&[]) is the documented panic and is never called", "dev profile: overflow checks and debug assertions on; thorough also runs the release profile"])))
         }
         "C15" => {
